@@ -74,7 +74,7 @@ func VerifHarness_C05_KeywordTable() {
 // tokens do not change the token sequence.
 func verifC05Layout(sepLen int) {
 	a := verifSpellings[vsymChoice("a", len(verifSpellings))]
-	b := verifSpellings[vsymChoice("b", 12)] // punctuation and operators on the right
+	b := verifSpellings[vsymChoice("b", 14)] // punctuation, operators and parentheses on the right
 	sep := vsymString("sep", sepLen)
 	for i := 0; i < len(sep); i++ {
 		c := sep[i]
@@ -92,6 +92,15 @@ func verifC05Layout(sepLen int) {
 	// a comment up to the end of line is layout, too
 	withComment, err3 := Tokenize(a.text+" # note "+b.text+"\n"+b.text, TokenizeOptions{})
 	vsymAssert((err1 == nil) == (err3 == nil) && len(withComment) == len(ref), "a comment is insignificant")
+	for i := range ref {
+		if i < len(withComment) && (ref[i].Type != withComment[i].Type || ref[i].Text != withComment[i].Text) {
+			if i == 0 && ref[0].Type.IsFunction() && withComment[0].Type == Ident {
+				vsymFinding("F28", true, "a comment between a function name and its opening parenthesis (`sum # note` newline `(...)`) turns the function keyword into an identifier: the lexer decides function-or-identifier by the next non-blank character and sees the `#`")
+				return
+			}
+			vsymAssert(false, "a comment does not change the tokens")
+		}
+	}
 	vsymReach("C05_layout")
 }
 
